@@ -1,5 +1,10 @@
-(* C19 -- compile-time diagnostics (statements grow with Proofs/Columns.v). *)
-From BL Require Import Base.Prelude Mach.Val Mach.Compile Mach.Listing.
+(* C19 -- compile-time diagnostics point into the listed line and block execution.
+   Proved (Proofs/ErrBlock.v): with errors recorded for the stored program every jump into program code stops the
+   machine and reports them, leaving stack, variables and column alone; jumps that stay inside the direct line are
+   ordinary jumps; a listed line comes with exactly the error ranges recorded for that line, shifted by the width of the
+   line-number prefix.  NOT proved: that the recorded range of UNDEFINED LINE covers exactly the number and that of an
+   unmatched WHILE/WEND exactly the keyword (parser columns; decided by the C19 monitor on the listed text). *)
+From BL Require Import Base.Prelude Mach.Val Mach.Compile Mach.Listing Mach.Runtime Proofs.ErrBlock.
 Local Open Scope N_scope.
 
 (* the range shown to the user is the parser's range shifted by the width of "<line number> " *)
@@ -7,3 +12,20 @@ Theorem C19_error_column_shift : forall code n a b,
   error_column (mkErr code (Some n) (a, b)) = (a + lenN (dec_of_N n) + 1, b + lenN (dec_of_N n) + 1).
 Proof. intros. unfold error_column. cbn. f_equal; lia. Qed.
 Print Assumptions C19_error_column_shift.
+
+Theorem C19_jump_into_faulty_program_blocked : forall O a r, a < r_entry r ->
+  let '(r', x) := exec_op O true (OpJump a) r in
+  x = Ok (Some (EvErrors (ls_ind_errors (r_listing r)))) /\ r_state r' = StStopped /\ r_cont r' = StStopped
+  /\ r_stack r' = r_stack r /\ r_vars r' = r_vars r /\ r_col r' = r_col r.
+Proof. exact jump_into_faulty_program_blocked. Qed.
+Print Assumptions C19_jump_into_faulty_program_blocked.
+
+Theorem C19_jump_within_direct_line : forall O h a r, r_entry r <= a -> exec_op O h (OpJump a) r = (set_pc r a, Ok None).
+Proof. exact jump_within_direct_line. Qed.
+Print Assumptions C19_jump_within_direct_line.
+
+Theorem C19_underline_ranges : forall l a b text cols next, list_line l a b = Ok (Some (text, cols, next)) ->
+  exists n toks, text = line_to_string (Some n, toks) /\ In (n, toks) (ls_lines l) /\ a <= n <= b
+    /\ cols = map error_column (filter (fun e => match eline e with Some k => k =? n | None => false end) (ls_ind_errors l)).
+Proof. exact underline_ranges_are_the_lines_errors. Qed.
+Print Assumptions C19_underline_ranges.
